@@ -17,6 +17,7 @@ from rcc import harness as h
 odml = h.odml
 
 NAMES = ['a', 'ab', 'b', 'a b']
+CASE_NAMES = ['a', 'A', 'Ab', 'ab']
 TYPES = ['t', 'T', 'setup/daq', 'setup']
 
 
@@ -68,7 +69,7 @@ class M(object):
 
 
 def prop_pattern(k):
-    return [['a', 'ab'], ['a b'], [], ['b']][k % 4]
+    return [['a', 'ab'], ['a b'], [], ['b'], ['a', 'A'], ['Ab', 'ab', 'AB']][k % 6]
 
 
 def prop_values(pname, k):
@@ -394,6 +395,8 @@ def scopes(tier, heavy=False):
     """[(exact node count, name pool)] - every shape with exactly n nodes x every admissible naming.
     heavy: the per-document work is large (find/find_related flag product), so one size less."""
     small = [(0, NAMES), (1, NAMES), (2, NAMES), (3, NAMES)]
+    # names that differ only in letter case / in a non-ASCII letter are different names (lookup is exact)
+    small = small + [(2, CASE_NAMES), (3, CASE_NAMES)]
     if tier == 'quick':
         return small + [(4, ['a', 'ab'])] if heavy else small + [(4, NAMES), (5, ['a', 'ab'])]
     if heavy:
@@ -449,7 +452,7 @@ def random_tree(rnd, nsec, max_children=4):
     for p, cs in kids.items():
         used = set()
         for c in cs:
-            nm = rnd.choice(NAMES + ['abc', 'b a', 'a.b', 'ab '])
+            nm = rnd.choice(NAMES + ['abc', 'b a', 'a.b', 'ab ', 'A', 'Ab', 'AB', '\u00e4', '\u00c4'])
             while nm in used:
                 nm += rnd.choice(['a', 'b', ' '])
             used.add(nm)
